@@ -304,6 +304,8 @@ def _check(verif, repo, prop, tier, seed, use_cache, write_evidence, t0, selftes
         if e['kind'] == 'rlimit':
             undecided.append((name, e))
             continue
+        if e.get('fn') in getattr(main_b, 'degraded', ()) and e.get('fn') not in main_b.restructured:
+            main_b.restructured[e.get('fn')] = 'its proof hints no longer type-check against the changed body (renamed or removed locals) and were dropped'
         if e.get('fn') in main_b.restructured:
             # the loop structure of this function changed: without new loop invariants nothing about it can be proved,
             # so a failed obligation here says "proof needs rework", not "property violated"
